@@ -324,6 +324,13 @@ PP_VALUES = [
     ["w" * 70, "v" * 70, "u" * 70],
     {"k": ["x" * 148, "y"], "z": ["y" * 149]},
     [True, False, None, 0, 1, "", [], {}, [[]], [{}]],
+    # dicts whose keys are not strings; keys that are equal but of different types in different objects
+    {"__pairs__": [[0, "zero"], ["s", "text"], [None, "none"]]},
+    {"__pairs__": [[False, "no"], ["k", 1], [2.5, "float"]]},
+    {"__pairs__": [[True, "yes"], ["z", 0], [{"__tuple__": [1, 2]}, "pair"]]},
+    {"__pairs__": [[1, "one"], ["b", 2], [{"__tuple__": [1, "a"]}, "mixed"]]},
+    {"__pairs__": [[1.0, "float one"], ["c", 3], [0.0, "float zero"]]},
+    [{"__pairs__": [[10, "ten"], [9, "nine"], ["9", "str nine"]]}, {"__tuple__": [1, [2, 3], {"__tuple__": []}]}],
 ]
 
 
@@ -404,6 +411,10 @@ def generate(rng, tier):
     if rng.random() < 0.5:
         inits.append({})
     objs = [gen_object(rng, n_enums, tier != "quick") for _ in range(rng.randint(2, 4))]
+    if rng.random() < 0.06 or any(o["kind"] == "pp" and "__pairs__" in json.dumps(o["value"]) for o in objs):
+        # several values whose dict keys are equal across types (False / 0 / 0.0, True / 1 / 1.0) in one history
+        for v in rng.sample(PP_VALUES[-6:], 2):
+            objs.append({"kind": "pp", "value": v, "fmt_json": rng.random() < 0.3, "module_pp": rng.random() < 0.3})
     long_run = rng.random() < 0.03
     if long_run:
         # a long history for the shared field types: many big tables with many different enum values
@@ -523,6 +534,8 @@ def generate(rng, tier):
             a["op"] = "render"
             a["how"] = rng.choice(["str", "str", "plain", "lines"])
             a["late"] = rng.random() < 0.4
+            if rng.random() < 0.2:
+                a["poke"] = rng.choice(POKES)
             if a["conf"] == "global" and not a["no_color"] and not a["palette"] and rng.random() < 0.3:
                 a["how"] = "dunder"
             ops.append(a)
@@ -970,6 +983,11 @@ def _do_op(w, trace, op, n, k, log, color):
             w.stats["lines_vs_whole"] += 1
             w.check_text(t, text, "lines")
         else:
+            if op.get("poke") and how in ("str", "plain") and t.r.res is not None and kind in ("pp", "table", "ghist"):
+                # the result is used as a text first (length, +, slices, fixed_len, format ...): it memoises its
+                # text, and must hand out the very same text afterwards
+                w.guarded("poke-" + op["poke"], t.ctx(), rw.ro.poke, t.r, op["poke"])
+                w.stats["pokes"] = w.stats.get("pokes", 0) + 1
             text = w.guarded("whole-text", t.ctx(), rw.ro.whole_text, t.r, how)
             w.check_text(t, text, how)
         log.add("render", n, hashlib.blake2b(text.encode(), digest_size=6).hexdigest())
